@@ -621,9 +621,9 @@ func run(c *core.Ctx) {
 	}
 	e.runSign("deadline", []int{1, 2}, map[int]beh{1: {kind: "slow"}, 2: genReply(r, e.keys, 2)}, 1)
 	e.runSign("deadline-all", []int{3}, map[int]beh{3: {kind: "slow"}}, 1)
-	// the caller's deadline is tight: an unresponsive first endpoint uses up its per-try timeout (1 s), 0.6 s are
+	// the caller's deadline is tight: an unresponsive first endpoint uses up its per-try timeout (1 s), 1 s is
 	// left for the healthy second one, which answers at once - it must still be contacted and its answer returned
-	e.ctxTO = e.tryTO + 600*time.Millisecond
+	e.ctxTO = 2 * e.tryTO
 	e.runSign("deadline-tight-slow-then-ok", []int{1, 2}, map[int]beh{1: {kind: "slow"}, 2: genReply(r, e.keys, 2)}, 1)
 	e.runSign("deadline-tight-slow-then-ok", []int{4, 5, 2}, map[int]beh{4: {kind: "slow"}, 5: down, 2: genReply(r, e.keys, 1)}, 1)
 	e.ctxTO = 0
